@@ -82,3 +82,46 @@ Proof.
   - rewrite abs_with_cells. reflexivity.
   - eexists. reflexivity.
 Qed.
+
+(* ---------- column deletion, the sorted flag, column creation by type ---------- *)
+Theorem delcol_refines (w : world) p ti name :
+  pool w = map abs p ->
+  match lstep p (ODelCol ti name) with
+  | LUpd i t' => step w (ODelCol ti name) = (put w i (abs t'), OkUnit)
+  | LErr => step w (ODelCol ti name) = (w, Err ValueError)
+  | LSkip => True
+  | _ => False
+  end.
+Proof.
+  intros Hp. cbn [lstep]. destruct (nth_error p ti) as [t|] eqn:Et; [|exact I].
+  cbn [step]. rewrite (get_abs w p ti t Hp Et). unfold has_name. change (names (abs t)) with (l_names t).
+  destruct (lookup name (l_names t)); reflexivity.
+Qed.
+
+Theorem setsorted_refines (w : world) p ti b :
+  pool w = map abs p ->
+  match lstep p (OSetSorted ti b) with
+  | LUpd i t' => step w (OSetSorted ti b) = (put w i (abs t'), OkUnit)
+  | LSkip => True
+  | _ => False
+  end.
+Proof.
+  intros Hp. cbn [lstep]. destruct (nth_error p ti) as [t|] eqn:Et; [|exact I].
+  cbn [step]. rewrite (get_abs w p ti t Hp Et). reflexivity.
+Qed.
+
+Theorem setcolkind_refines (w : world) p ti name k :
+  pool w = map abs p ->
+  match lstep p (OSetColKind ti name k) with
+  | LUpd i t' => step w (OSetColKind ti name k) = (put w i (abs t'), OkUnit)
+  | LSkip => True
+  | _ => False
+  end.
+Proof.
+  intros Hp. cbn [lstep]. destruct (nth_error p ti) as [t|] eqn:Et; [|exact I].
+  cbn [step]. rewrite (get_abs w p ti t Hp Et). f_equal. f_equal.
+  unfold fresh_col, add_slot, abs, lbind, bind_name, has_name, nrows.
+  cbn [fst snd l_fam l_rowid l_names l_cols l_sorted l_dflt fam ids names slots tsorted dflt].
+  rewrite map_app, map_length. cbn [map lc_kind lc_cells]. unfold nrows_l.
+  destruct (lookup name (l_names t)); reflexivity.
+Qed.
